@@ -1,9 +1,14 @@
 //! Command line of `trampsim`.
 
+use std::collections::BTreeMap;
+
+use serde_json::json;
+
+use super::check::{self, DEFAULT_SEED};
 use super::content;
-use super::engine::Sim;
-use super::rng::{mix, Rng};
-use super::sched::{profile_cfg, RandomSched};
+use super::replay::{self, ReplayFile};
+use super::rng::mix;
+use super::sched::PROFILES;
 use super::seam;
 
 pub fn process_setup() {
@@ -14,16 +19,211 @@ pub fn process_setup() {
     let _ = content::pool();
 }
 
-pub fn run_one(seed: u64, profile: &str, dump: bool, probe: bool) -> Sim {
-    let mut content = Rng::new(mix(seed, 0xC0FFEE));
-    let cfg = profile_cfg(profile, &mut content);
-    let mut sim = Sim::new(seed, cfg);
-    if dump {
-        sim.event_dump = Some(Vec::new());
+fn base_seed() -> u64 {
+    std::env::var("VERIF_SEED")
+        .ok()
+        .and_then(|s| s.parse::<u64>().ok())
+        .unwrap_or(DEFAULT_SEED)
+}
+
+/// Determinism self-test: every seed is executed twice (once on many worker
+/// threads, once on one) and the event-log hashes must agree; plus replay
+/// round trip (recorded op list under the scripted scheduler gives the same hash).
+pub fn selftest(seeds_per_profile: u64, roundtrip: u64, verbose: bool) -> Result<serde_json::Value, String> {
+    let t0 = std::time::Instant::now();
+    let base = mix(base_seed(), 0x5E1F);
+    let jobs: Vec<(usize, u64)> = (0..PROFILES.len())
+        .flat_map(|p| (0..seeds_per_profile).map(move |i| (p, i)))
+        .collect();
+    let run_all = |workers: usize| -> Vec<u64> {
+        let next = std::sync::atomic::AtomicUsize::new(0);
+        let out = std::sync::Mutex::new(vec![0u64; jobs.len()]);
+        std::thread::scope(|s| {
+            for _ in 0..workers {
+                s.spawn(|| loop {
+                    let i = next.fetch_add(1, std::sync::atomic::Ordering::SeqCst);
+                    if i >= jobs.len() {
+                        break;
+                    }
+                    let (p, k) = jobs[i];
+                    let seed = mix(base, (p as u64) << 32 | k);
+                    let sim = check::run_random(seed, PROFILES[p], k % 3 == 0, false);
+                    out.lock().unwrap()[i] = sim.log.0 ^ sim.trace.0.rotate_left(7);
+                });
+            }
+        });
+        out.into_inner().unwrap()
+    };
+    let many = std::thread::available_parallelism().map(|n| n.get()).unwrap_or(4);
+    let a = run_all(many);
+    let b = run_all(1.max(many / 8));
+    let mut diverged = 0;
+    for (i, (x, y)) in a.iter().zip(b.iter()).enumerate() {
+        if x != y {
+            diverged += 1;
+            if verbose || diverged <= 3 {
+                let (p, k) = jobs[i];
+                eprintln!(
+                    "selftest: divergence profile {} seed {}",
+                    PROFILES[p],
+                    mix(base, (p as u64) << 32 | k)
+                );
+            }
+        }
     }
-    let mut sched = RandomSched::new(mix(seed, 0x5C4ED), probe);
-    sim.run(&mut sched);
-    sim
+    // Replay round trip.
+    let mut rt_bad = 0;
+    for i in 0..roundtrip {
+        let p = (i as usize) % PROFILES.len();
+        let seed = mix(base, 0xABCD_0000 + i);
+        let sim = check::run_random(seed, PROFILES[p], i % 2 == 0, false);
+        let cfg = check::cfg_for(seed, PROFILES[p]);
+        let s2 = replay::run_script(seed, &cfg, &sim.ops_done, false);
+        if s2.log.0 != sim.log.0 {
+            rt_bad += 1;
+            eprintln!("selftest: replay round trip differs, profile {} seed {}", PROFILES[p], seed);
+        }
+    }
+    let res = json!({
+        "seeds": jobs.len(),
+        "executed_twice_with_worker_counts": [many, 1.max(many / 8)],
+        "diverged": diverged,
+        "replay_round_trips": roundtrip,
+        "replay_round_trip_mismatches": rt_bad,
+        "wall_s": t0.elapsed().as_secs_f64(),
+    });
+    if diverged > 0 || rt_bad > 0 {
+        return Err(format!("determinism self-test failed: {}", res));
+    }
+    Ok(res)
+}
+
+fn do_check(prop: &str, tier: &str) -> i32 {
+    let seed = base_seed();
+    let findings = replay::load_findings("/verif/known_findings.json");
+    // Dedicated engines first.
+    if let Some(code) = super::special::check_special(prop, tier, seed, &findings) {
+        return code;
+    }
+    let plan = match check::plan(prop) {
+        Some(p) => p,
+        None => {
+            eprintln!("no check for property {}", prop);
+            return 2;
+        }
+    };
+    let st = match selftest(if tier == "thorough" { 60 } else { 12 }, 24, false) {
+        Ok(v) => v,
+        Err(e) => {
+            eprintln!("HARNESS ERROR: {}", e);
+            return 2;
+        }
+    };
+    let out = check::run_plan(&plan, tier, seed, &findings);
+    println!(
+        "{} {}: {} runs in {:.1}s ({} non-trivial, {} distinct non-trivial traces, {} abstract states), faults fired: {}",
+        prop,
+        tier,
+        out.agg.runs,
+        out.wall_s,
+        out.agg.nontrivial_runs,
+        out.agg.traces_nontrivial.len(),
+        out.agg.states.len(),
+        out.agg.faults.values().sum::<u64>()
+    );
+    for a in &plan.antecedents {
+        if out.agg.reach.get(a).copied().unwrap_or(0) == 0 {
+            println!("WARNING: reach probe {} stayed at zero", a);
+        }
+    }
+    let mut code = 0;
+    let mut nviol = 0;
+    if let Some((_idx, vseed, profile, v)) = out.agg.target.first() {
+        nviol = out.agg.target.len();
+        let probe = plan
+            .profiles
+            .iter()
+            .chain(plan.thorough_profiles.iter())
+            .find(|p| p.0 == profile.as_str())
+            .map(|p| p.2)
+            .unwrap_or(false);
+        match check::make_replay(*vseed, profile, probe, v) {
+            Ok((rf, path)) => {
+                println!(
+                    "violation: {} [{}] {} (seed {}, profile {}, {} ops minimised from {})",
+                    rf.property, rf.rule, rf.detail, rf.seed, profile, rf.ops.len(), rf.original_ops
+                );
+                println!("VIOLATION property={} replay={}", prop, path);
+                code = 1;
+            }
+            Err(e) => {
+                eprintln!("HARNESS ERROR: {}", e);
+                return 2;
+            }
+        }
+    }
+    for ((p, r, k), (c, text)) in &out.agg.known_hits {
+        println!("KNOWN-FINDING: property={} [{} / {}] {} (seen in {} runs)", p, r, k, text, c);
+    }
+    check::write_evidence(&plan, tier, seed, &out, nviol, json!({"selftest": st}));
+    code
+}
+
+fn do_replay(path: &str, dump: bool) -> i32 {
+    let s = match std::fs::read_to_string(path) {
+        Ok(s) => s,
+        Err(e) => {
+            eprintln!("cannot read {}: {}", path, e);
+            return 2;
+        }
+    };
+    let rf: ReplayFile = match serde_json::from_str(&s) {
+        Ok(r) => r,
+        Err(e) => {
+            eprintln!("cannot parse {}: {}", path, e);
+            return 2;
+        }
+    };
+    if rf.harness_version != replay::HARNESS_VERSION {
+        eprintln!(
+            "replay file is for harness version {}, this is {}",
+            rf.harness_version,
+            replay::HARNESS_VERSION
+        );
+        return 2;
+    }
+    if rf.engine != "E1" {
+        return super::special::replay_special(&rf, dump);
+    }
+    let sim = replay::run_script(rf.seed, &rf.cfg, &rf.ops, dump);
+    if let Some(d) = &sim.event_dump {
+        for l in d {
+            println!("{}", l);
+        }
+    }
+    let hit = sim
+        .or
+        .violations
+        .iter()
+        .find(|v| replay::same(v, &rf.property, &rf.rule, &rf.key));
+    match hit {
+        Some(v) => {
+            println!("reproduced: {} [{}] {}", v.prop, v.rule, v.detail);
+            let h = format!("{:016x}", sim.log.0);
+            if h != rf.loghash {
+                println!("note: event-log hash {} differs from recorded {} (code under test changed?)", h, rf.loghash);
+            }
+            println!("VIOLATION property={} replay={}", rf.property, path);
+            1
+        }
+        None => {
+            println!("not reproduced: {} [{}] did not fire", rf.property, rf.rule);
+            for v in &sim.or.violations {
+                println!("  (other: {} [{}] {})", v.prop, v.rule, v.detail);
+            }
+            0
+        }
+    }
 }
 
 pub fn cli() -> i32 {
@@ -34,12 +234,37 @@ pub fn cli() -> i32 {
             .position(|a| a == name)
             .and_then(|i| args.get(i + 1).cloned())
     };
+    let has = |name: &str| args.iter().any(|a| a == name);
     let cmd = args.get(1).map(|s| s.as_str()).unwrap_or("help");
     match cmd {
+        "check" => {
+            let prop = args.get(2).cloned().unwrap_or_default();
+            let tier = args.get(3).cloned().unwrap_or_else(|| {
+                std::env::var("VERIF_TIER").unwrap_or_else(|_| "quick".into())
+            });
+            do_check(&prop, &tier)
+        }
+        "replay" => match args.get(2) {
+            Some(p) => do_replay(p, has("--dump")),
+            None => 2,
+        },
+        "selftest" => {
+            let n: u64 = get("--seeds").and_then(|s| s.parse().ok()).unwrap_or(450);
+            match selftest(n, 500, true) {
+                Ok(v) => {
+                    println!("selftest ok: {}", v);
+                    0
+                }
+                Err(e) => {
+                    eprintln!("{}", e);
+                    2
+                }
+            }
+        }
         "run" => {
             let seed: u64 = get("--seed").and_then(|s| s.parse().ok()).unwrap_or(1);
             let profile = get("--profile").unwrap_or_else(|| "plain".into());
-            let sim = run_one(seed, &profile, true, args.iter().any(|a| a == "--probe"));
+            let sim = check::run_random(seed, &profile, has("--probe"), true);
             for l in sim.event_dump.as_ref().unwrap() {
                 println!("{}", l);
             }
@@ -47,7 +272,10 @@ pub fn cli() -> i32 {
             println!("stats: {:?}", sim.stats);
             println!("reach: {:?}", sim.or.reach);
             for v in &sim.or.violations {
-                println!("VIOLATION {} {} step={} t={}ms: {}", v.prop, v.rule, v.step, v.now_ms, v.detail);
+                println!(
+                    "VIOLATION {} {} [{}] step={} t={}ms: {}",
+                    v.prop, v.rule, v.key, v.step, v.now_ms, v.detail
+                );
             }
             println!("loghash {:016x}", sim.log.0);
             0
@@ -56,36 +284,46 @@ pub fn cli() -> i32 {
             let base: u64 = get("--seed").and_then(|s| s.parse().ok()).unwrap_or(1);
             let n: u64 = get("--runs").and_then(|s| s.parse().ok()).unwrap_or(1000);
             let profile = get("--profile").unwrap_or_else(|| "plain".into());
-            let probe = args.iter().any(|a| a == "--probe");
+            let probe = has("--probe");
             let t0 = std::time::Instant::now();
-            let mut counts: std::collections::BTreeMap<(String, String), (u64, u64)> = Default::default();
-            let mut reach: std::collections::BTreeMap<&'static str, u64> = Default::default();
-            let mut faults: std::collections::BTreeMap<&'static str, u64> = Default::default();
+            let mut counts: BTreeMap<(String, String, String), (u64, u64)> = Default::default();
+            let mut reach: BTreeMap<&'static str, u64> = Default::default();
+            let mut faults: BTreeMap<&'static str, u64> = Default::default();
             let mut answers = [0u64; 5];
             let mut ops = 0u64;
             for i in 0..n {
                 let seed = mix(base, i);
-                let sim = run_one(seed, &profile, false, probe);
+                let sim = check::run_random(seed, &profile, probe, false);
                 for v in &sim.or.violations {
-                    let e = counts.entry((v.prop.to_string(), v.rule.to_string())).or_insert((0, seed));
+                    let e = counts
+                        .entry((v.prop.to_string(), v.rule.to_string(), v.key.clone()))
+                        .or_insert((0, seed));
                     e.0 += 1;
                 }
-                for (k, v) in &sim.or.reach { *reach.entry(k).or_insert(0) += v; }
-                for (k, v) in &sim.stats.faults { *faults.entry(k).or_insert(0) += v; }
-                for k in 0..5 { answers[k] += sim.stats.answers[k]; }
+                for (k, v) in &sim.or.reach {
+                    *reach.entry(k).or_insert(0) += v;
+                }
+                for (k, v) in &sim.stats.faults {
+                    *faults.entry(k).or_insert(0) += v;
+                }
+                for k in 0..5 {
+                    answers[k] += sim.stats.answers[k];
+                }
                 ops += sim.stats.ops;
             }
             println!("{} runs in {:?}; ops {}", n, t0.elapsed(), ops);
             println!("answers continue/fail/resolve/rpc-error/malformed: {:?}", answers);
-            println!("reach: {:#?}", reach);
-            println!("faults: {:#?}", faults);
-            for ((p, r), (c, s)) in &counts {
-                println!("{} {} x{} e.g. seed {}", p, r, c, s);
+            if has("--verbose") {
+                println!("reach: {:#?}", reach);
+                println!("faults: {:#?}", faults);
+            }
+            for ((p, r, k), (c, s)) in &counts {
+                println!("{} {} [{}] x{} e.g. seed {}", p, r, k, c, s);
             }
             0
         }
         _ => {
-            eprintln!("usage: trampsim run|batch ...");
+            eprintln!("usage: trampsim check <ID> quick|thorough | replay <file> [--dump] | selftest | run --seed N --profile P | batch ...");
             2
         }
     }
